@@ -28,9 +28,9 @@ impl FixtureDatabase {
 @rename max_by_key vp_max_by_key
 @rename filter vp_filter
 @ret r
-@closure 1 |def: &&FixtureDefinition| -> (b: bool) requires call_requires(filter, (*def,)) ensures b ==> pbv(&def.file_path) == pv(file_path) && call_ensures(filter, (*def,), true), !b ==> pbv(&def.file_path) != pv(file_path) || call_ensures(filter, (*def,), false)
-@closure 2 |def: &&FixtureDefinition| -> (k: usize) ensures k == def.line
-@closure 3 |def: &&FixtureDefinition| -> (b: bool) requires call_requires(filter, (*def,)) ensures call_ensures(filter, (*def,), b)
+@closure filter:1 |def: &&FixtureDefinition| -> (b: bool) requires call_requires(filter, (*def,)) ensures b ==> pbv(&def.file_path) == pv(file_path) && call_ensures(filter, (*def,), true), !b ==> pbv(&def.file_path) != pv(file_path) || call_ensures(filter, (*def,), false)
+@closure max_by_key:1 |def: &&FixtureDefinition| -> (k: usize) ensures k == def.line
+@closure find:1 |def: &&FixtureDefinition| -> (b: bool) requires call_requires(filter, (*def,)) ensures call_ensures(filter, (*def,), b)
 @sig
     requires forall|d: &FixtureDefinition| #[trigger] call_requires(filter, (d,)),
     ensures forall|fs: spec_fn(DefV) -> bool| consistent(filter, fs) ==>
